@@ -282,6 +282,93 @@ fn length_sweep(rec: &mut Rec, _ctx: &Ctx, len: u64, rng: &mut ChaCha20Rng, serv
   }
 }
 
+/// the output for (server key, tag, input) is the same for EVERY request: also for requests made
+/// after other tags of that key have been punctured (in any order), and the honest proof still verifies
+fn puncture_history(rec: &mut Rec, _ctx: &Ctx, idx: u64, rng: &mut ChaCha20Rng) {
+  use rand::seq::SliceRandom;
+  let tags: Vec<u8> = match idx % 3 {
+    0 => (0..=255u8).collect(),
+    1 => (0..32u8).map(|i| i.wrapping_mul(8).wrapping_add((idx % 8) as u8)).collect(),
+    _ => {
+      let mut t: Vec<u8> = (0..16).map(|_| rng.gen()).collect();
+      t.sort();
+      t.dedup();
+      t
+    }
+  };
+  let mut server = match Server::new(tags.clone()) {
+    Ok(s) => s,
+    Err(_) => return,
+  };
+  let pk = server.get_public_key();
+  let input = rand_bytes_in(rng, 0..40);
+  let full_round = |rec: &mut Rec, server: &Server, tag: u8| -> Option<[u8; 32]> {
+    rec.ev("rounds");
+    rec.ev("history_rounds");
+    let (blinded, r) = Client::blind(&input);
+    let ev = server.eval(&blinded, tag, true).ok()?;
+    if !Client::verify(&pk, &blinded, &ev, tag) {
+      rec.violation("honest-proof-rejected:after-puncture-history", format!("the honest evaluation for tag {} does not verify against the published key", tag), json!({"tag": tag, "tags": tags}));
+      return None;
+    }
+    let unblinded = Client::unblind(&ev.output, &r);
+    let mut out = [0u8; 32];
+    Client::finalize(&input, tag, &unblinded, &mut out);
+    Some(out)
+  };
+  rec.evals += 1;
+  rec.case(&("puncture-history", tags.len(), idx % 3));
+  let mut baseline: HashMap<u8, [u8; 32]> = HashMap::new();
+  for &t in &tags {
+    if let Some(o) = full_round(rec, &server, t) {
+      baseline.insert(t, o);
+    } else {
+      return;
+    }
+  }
+  // puncture order: random, ascending, descending, bit-7 partners first
+  let mut order = tags.clone();
+  match (idx / 3) % 4 {
+    0 => order.shuffle(rng),
+    1 => {}
+    2 => order.reverse(),
+    _ => order.sort_by_key(|t| (t & 0x7f, *t)),
+  }
+  let steps = order.len().min(if tags.len() > 64 { 24 } else { 12 });
+  let mut punctured: Vec<u8> = Vec::new();
+  for &a in order.iter().take(steps) {
+    if server.puncture(a).is_err() {
+      rec.violation("puncture-failed", format!("puncturing the registered tag {} failed", a), json!({"tags": tags, "punctured": punctured}));
+      return;
+    }
+    punctured.push(a);
+    // probes: neighbours of the punctured tag in the tree, and a few random live tags
+    let mut probes: Vec<u8> = (0..8).map(|b| a ^ (1u8 << b)).chain((0..4).map(|_| tags[rng.gen_range(0..tags.len())])).collect();
+    probes.retain(|t| tags.contains(t) && !punctured.contains(t));
+    probes.sort();
+    probes.dedup();
+    for b in probes {
+      match full_round(rec, &server, b) {
+        Some(o) if Some(&o) == baseline.get(&b) => {}
+        Some(_) => {
+          rec.violation(
+            "output-changed-after-puncture",
+            format!("the finalised output for the unpunctured tag {} changed after tag {} was punctured (same server key, tag and input)", b, a),
+            json!({"tags": tags, "punctured": punctured, "tag": b, "input": hex(&input)}),
+          );
+          return;
+        }
+        None => {
+          if rec.violations.is_empty() {
+            rec.violation("unpunctured-tag-refused", format!("the unpunctured tag {} is refused after tag {} was punctured", b, a), json!({"tags": tags, "punctured": punctured}));
+          }
+          return;
+        }
+      }
+    }
+  }
+}
+
 pub fn run(ctx: &Ctx) -> Rec {
   // independently keyed servers with different tag sets (incl. 0 and 255, adjacent tags, all 256)
   let mut r0 = case_rng(ctx, "servers", 0);
@@ -306,6 +393,7 @@ pub fn run(ctx: &Ctx) -> Rec {
   rec.merge(par_run(ctx, "length-sweep", max_len, |rec, i, rng| length_sweep(rec, ctx, i, rng, &servers, &g)));
   rec.note("length_sweep_max", json!(max_len));
   rec.merge(par_run(ctx, "inconsistent-import", ctx.n(60, 3000), |rec, i, rng| inconsistent_import(rec, ctx, i, rng)));
+  rec.merge(par_run(ctx, "puncture-history", ctx.n(36, 1500), |rec, i, rng| puncture_history(rec, ctx, i, rng)));
   rec.note("distinct_blinded_requests", json!(g.blinded.lock().unwrap().len()));
   rec.note("distinct_result_points", json!(g.points.lock().unwrap().len()));
   rec.note("servers", json!(servers.len()));
